@@ -1581,7 +1581,16 @@ func (s *Sim) unfresh(st *State, v Val) {
 
 func (s *Sim) step(fr *Frame, in ssa.Instruction, st *State) []*State {
 	if s.trace != "" && (s.trace == "*" || strings.Contains(FuncName(fr.Fn), s.trace)) {
-		fmt.Fprintf(os.Stderr, "  [%s b%d] %-60s held=%s\n", FuncName(fr.Fn), in.Block().Index, in.String(), st.heldString())
+		extra := ""
+		if os.Getenv("BB_TRACE_FACTS") != "" {
+			var fs []string
+			for v, b := range st.bf {
+				fs = append(fs, fmt.Sprintf("%s=%v", v.Name(), b))
+			}
+			sort.Strings(fs)
+			extra = " bf=" + strings.Join(fs, ",")
+		}
+		fmt.Fprintf(os.Stderr, "  [%s b%d] %-60s held=%s%s\n", FuncName(fr.Fn), in.Block().Index, in.String(), st.heldString(), extra)
 	}
 	if v, ok := in.(ssa.Value); ok {
 		delete(st.bf, v)
@@ -1595,7 +1604,7 @@ func (s *Sim) step(fr *Frame, in ssa.Instruction, st *State) []*State {
 		if s.tracksFresh(x) {
 			st.fresh[x] = true
 		}
-		if !s.P.ConcurrentlyCaptured(x) && s.P.Captured(x) {
+		if s.P.LocalFlag(x) {
 			et := x.Type().Underlying().(*types.Pointer).Elem()
 			k := (Val{K: KPath, Root: x}).Key()
 			if isBool(et) {
@@ -1625,7 +1634,7 @@ func (s *Sim) step(fr *Frame, in ssa.Instruction, st *State) []*State {
 		if a.K == KPath {
 			delete(st.nz, a.Key())
 			delete(st.nilp, a.Key())
-			if al, ok := a.Root.(*ssa.Alloc); ok && len(a.Segs) == 0 && !a.Deref && !s.P.ConcurrentlyCaptured(al) && s.P.Captured(al) {
+			if al, ok := a.Root.(*ssa.Alloc); ok && len(a.Segs) == 0 && !a.Deref && s.P.LocalFlag(al) {
 				k := a.Key()
 				if b, known := s.evalBool(fr, st, x.Val); known && isBool(x.Val.Type()) {
 					if b {
@@ -1804,7 +1813,7 @@ func (s *Sim) withinCapacity(fr *Frame, snd *ssa.Send) bool {
 	}
 	// count static send sites on this channel value (through cells and free variables)
 	n := int64(0)
-	for _, fn := range s.P.Funcs {
+	for _, fn := range s.P.AllFuncs() {
 		if fn != mk.Parent() && !isNestedIn(fn, mk.Parent()) {
 			continue
 		}
@@ -2398,6 +2407,71 @@ func (s *Sim) tracksFresh(al *ssa.Alloc) bool {
 }
 
 // Captured: the alloc is referenced by at least one closure.
+// LocalFlag: a local bool / pointer variable whose address never leaves the activation except into closures that do not
+// run concurrently or into parameters of library functions that only dereference it (defer x.unlockUnless(&skip)):
+// its contents can be tracked flow-sensitively.
+func (p *Prog) LocalFlag(al *ssa.Alloc) bool {
+	if v, ok := p.localFlag[al]; ok {
+		return v
+	}
+	res, shared := true, false
+	for _, ref := range *al.Referrers() {
+		switch r := ref.(type) {
+		case *ssa.Store:
+			if r.Addr != ssa.Value(al) {
+				res = false
+			}
+		case *ssa.UnOp, *ssa.DebugRef:
+		case *ssa.MakeClosure:
+			shared = true
+			if p.ConcurrentlyCaptured(al) {
+				res = false
+			}
+		case *ssa.Call, *ssa.Defer:
+			cc := CallCommonOf(ref)
+			callee := cc.StaticCallee()
+			if callee == nil || !p.IsLib(Canon(callee)) {
+				res = false
+				break
+			}
+			cf := Canon(callee)
+			for i, a := range cc.Args {
+				if a == ssa.Value(al) {
+					if i >= len(cf.Params) || !derefOnly(cf.Params[i]) {
+						res = false
+					}
+					shared = true
+				}
+			}
+		default:
+			res = false
+		}
+	}
+	res = res && shared
+	if p.localFlag == nil {
+		p.localFlag = map[*ssa.Alloc]bool{}
+	}
+	p.localFlag[al] = res
+	return res
+}
+
+// derefOnly: the pointer parameter is only loaded from / stored through (possibly after being spilled for a closure
+// of the callee that is itself only called or deferred there).
+func derefOnly(prm *ssa.Parameter) bool {
+	for _, ref := range *prm.Referrers() {
+		switch r := ref.(type) {
+		case *ssa.UnOp, *ssa.DebugRef:
+		case *ssa.Store:
+			if r.Addr != ssa.Value(prm) {
+				return false
+			}
+		default:
+			return false
+		}
+	}
+	return true
+}
+
 func (p *Prog) Captured(al *ssa.Alloc) bool {
 	for _, ref := range *al.Referrers() {
 		if _, ok := ref.(*ssa.MakeClosure); ok {
